@@ -24,7 +24,10 @@ compile_program(prog) -> Compiled(insns: bytes, regs, ins, outs=0, listing: [str
 evaluate(prog, args) -> ('ret', value) | ('exc', 'java.lang.ArithmeticException')   Java semantics of the AST
 to_java(prog, name) -> Java source of the method (used only by the generator's self test against a real JVM)
 features_used(prog) -> set of AST-level features (incl. the shape features dead_branch, dowhile_kill, const_loop_cond,
-                       fallthrough_any, narrow_switch, loop_return, break_in_if, switch_inner_return, deep, see programs());
+                       fallthrough_any, narrow_switch, loop_return, break_in_if, switch_inner_return, deep, narrow_join,
+                       see programs());
+narrow_joins(prog) -> set of (kinds, join) e.g. ('BC', 'ifelse'): reads of an int local whose reaching definitions are
+                       two or more byte/short/char casts of at least two different kinds (reaching definitions of the AST)
 ops_used(prog) -> set of operator names;  nesting(prog) -> '<inner>_in_<parent>' tags;  build_dex(progs) -> DEX bytes
 shrink_candidates(prog) -> list of strictly smaller programs (one-step reductions) for batch shrinking
 descriptor(prog) -> '(IJ)I' ;  arg_tuples(prog, rng, n) -> boundary + random argument tuples
@@ -41,7 +44,8 @@ FEATURES = ('arith', 'divrem', 'bitwise', 'shift', 'ushr', 'neg', 'not', '2addr'
             'cast_i2l', 'cast_l2i', 'cast_narrow', 'long', 'bigconst', 'compound', 'if', 'else',
             'while', 'dowhile', 'loop_bottom', 'break', 'nested', 'packed', 'sparse', 'fallthrough',
             'early_return', 'empty_case', 'dead_branch', 'dowhile_kill', 'const_loop_cond',
-            'fallthrough_any', 'narrow_switch', 'loop_return', 'break_in_if', 'switch_inner_return', 'deep')
+            'fallthrough_any', 'narrow_switch', 'loop_return', 'break_in_if', 'switch_inner_return', 'deep',
+            'narrow_join')
 
 BIN_OPS = ('add', 'sub', 'mul', 'div', 'rem', 'and', 'or', 'xor', 'shl', 'shr', 'ushr')
 OP_FEATURE = {'add': 'arith', 'sub': 'arith', 'mul': 'arith', 'div': 'divrem', 'rem': 'divrem', 'and': 'bitwise',
@@ -429,7 +433,127 @@ def _shape_features(prog):
                 f.add('fallthrough_any')
     if _has_wide_case_label(body) and any(e_[0] == 'k' and e_[2] in ('i2b', 'i2s', 'i2c') for e_ in e_all):
         f.add('narrow_switch')
+    if narrow_joins(prog):
+        f.add('narrow_join')
     return f
+
+
+NARROW_LETTER = {'i2b': 'B', 'i2s': 'S', 'i2c': 'C'}
+
+
+def narrow_joins(prog):
+    """Reaching definitions on the AST. -> set of (kinds, join): one entry per read of a local whose reaching definitions
+    are at least two assignments `v = (byte|short|char) e`, of at least two different kinds and nothing else (no plain int
+    definition, no parameter value). kinds: 'BC' 'BS' 'CS' 'BCS'; join: where these definitions met - 'ifelse' (both arms
+    of an if/else), 'if' (an if without else: the value from before meets the one of the arm), 'switch', 'loop'
+    (loop-carried: the value from before the loop meets the one of the body), several when the set grew in steps."""
+    kinds = {}                 # definition id (path of the statement) -> 'B' 'S' 'C' | None
+    origin = {}                # (var, frozenset of definition ids) -> {join tags}
+    back = {}                  # path of a loop -> state at the end of its body (grows until the fixed point)
+    found = set()
+    flags = {'record': False, 'changed': False}
+    empty = frozenset()
+
+    def define(st, v, path, e):
+        kinds[path] = NARROW_LETTER.get(e[2]) if e is not None and e[0] == 'k' else None
+        st = dict(st)
+        st[v] = frozenset([path])
+        return st
+
+    def merge(states, tag):
+        states = [x for x in states if x is not None]
+        if not states:
+            return None
+        out = {}
+        for v in sorted(set().union(*states)):
+            parts = [x.get(v, empty) for x in states]
+            u = empty.union(*parts)
+            out[v] = u
+            if any(q != u for q in parts):
+                origin.setdefault((v, u), set()).add(tag)
+        return out
+
+    def use(e, st):
+        if not flags['record']:
+            return
+        for v in sorted(_vars_of(e)):
+            ds_ = st.get(v, empty)
+            ks = {kinds[d] for d in ds_}
+            if len(ds_) >= 2 and None not in ks and len(ks) >= 2:
+                for tag in sorted(origin.get((v, ds_), ())) or ['other']:
+                    found.add((''.join(sorted(ks)), tag))
+
+    def use_cond(c, st):
+        es, cs = [], []
+        _walk_cond(c, es, cs)
+        for e in es:
+            if e[0] == 'v':
+                use(e, st)
+
+    def block(blk, st, brk, path):
+        for i, s in enumerate(blk):
+            if st is None:
+                break
+            p = path + (i,)
+            k = s[0]
+            if k == 'set':
+                use(s[2], st)
+                st = define(st, s[1], p, s[2])
+            elif k == 'ret':
+                use(s[1], st)
+                st = None
+            elif k == 'if':
+                use_cond(s[1], st)
+                a = block(s[2], st, brk, p + (0,))
+                b = block(s[3], st, brk, p + (1,))
+                st = merge([a, b], 'ifelse' if s[3] else 'if')
+            elif k == 'breakif':
+                use_cond(s[1], st)
+                brk.append(st)
+            elif k == 'loop':
+                _, kind, cv, bound, step, extra, body = s
+                st = define(st, cv, p + ('init',), None)
+                head = merge([st, back.get(p)], 'loop')
+                inner = []
+                if kind == 'while' and extra is not None:
+                    use_cond(extra, head)
+                out = block(body, head, inner, p + (0,))
+                if out is not None:
+                    out = define(out, cv, p + ('inc',), None)
+                    if kind == 'dowhile' and extra is not None:
+                        use_cond(extra, out)
+                nb = merge([back.get(p), out], 'loop')
+                if nb != back.get(p):
+                    back[p] = nb
+                    flags['changed'] = True
+                st = merge([head if kind == 'while' else None, out] + inner, 'loop')
+            elif k == 'switch':
+                use(s[1], st)
+                exits, prev = [], None
+                for j, (keys, cb, ft) in enumerate(s[2]):
+                    o = block(cb, merge([st, prev], 'switch'), brk, p + (j,))
+                    if ft:
+                        prev = o
+                    else:
+                        prev = None
+                        exits.append(o)
+                exits.append(block(s[3], merge([st, prev], 'switch'), brk, p + ('d',)))
+                st = merge(exits, 'switch')
+        return st
+
+    start = {i: frozenset([('param', i)]) for i in range(len(prog['params']))}
+    for i in range(len(prog['params'])):
+        kinds[('param', i)] = None
+    for _ in range(50):
+        flags['changed'] = False
+        block(prog['body'], start, [], ())
+        if not flags['changed']:
+            break
+    else:
+        raise AssertionError('reaching definitions did not converge')
+    flags['record'] = True
+    block(prog['body'], start, [], ())
+    return found
 
 
 def _adjacent_fallthrough(keys, next_keys, table_keys):
@@ -1181,6 +1305,15 @@ def programs(features=FEATURES, max_stmts=6):
                          in it, so no variable has all its reaching definitions inside a do-while body
     const_loop_cond off  every comparison evaluated inside a loop reads a variable that never holds a compile-time constant
                          (a parameter, the accumulator or the counter of an enclosing loop)
+    narrow_join on       (needs cast_narrow) up to two times per program a dedicated int local is assigned byte/short/char casts
+                         of different kinds on different paths and read right after the join - what
+                         `int v; if (c) v = (byte) a; else v = (char) b; return v;` compiles to. Joins: if/else (optionally a
+                         third kind in a nested else-if), a narrow assignment followed by one or two ifs without else, the
+                         cases + default of a switch, loop-carried (assigned before a loop and again, from itself, in its
+                         body). Reads: folded into the accumulator, into another local, or returned.
+    narrow_join off      no read of a local has two or more reaching definitions that are all byte/short/char casts of
+                         different kinds (narrow_joins(prog) is empty: if the other features produce one by chance the casts
+                         are removed from the program)
     """
     from hypothesis import strategies as st
     F = frozenset(features)
@@ -1283,14 +1416,17 @@ def programs(features=FEATURES, max_stmts=6):
         if use_acc:
             locals_.append(ret)
         counters = []
-        state = {'budget': draw(st.integers(1, max_stmts)), 'loops': 0}
+        hidden = []                    # the dedicated locals of narrow joins: read and written only by their construct
+        state = {'budget': draw(st.integers(1, max_stmts)), 'loops': 0, 'nj': 0}
+        nj_on = 'narrow_join' in F and 'cast_narrow' in F
         nc_base = set(range(nparams)) | ({acc} if use_acc else set())     # never hold a compile-time constant
 
         def readable():
-            return {I: [i for i, t in enumerate(locals_) if t == I], J: [i for i, t in enumerate(locals_) if t == J]}
+            return {I: [i for i, t in enumerate(locals_) if t == I and i not in hidden],
+                    J: [i for i, t in enumerate(locals_) if t == J]}
 
         def writable():
-            return [i for i in range(len(locals_)) if i not in counters and i != acc]
+            return [i for i in range(len(locals_)) if i not in counters and i != acc and i not in hidden]
 
         def combine(ty, a, b):
             if a[0] == 'c' and b[0] == 'c':
@@ -1395,6 +1531,137 @@ def programs(features=FEATURES, max_stmts=6):
             v = draw(st.sampled_from(writable()))
             return assign(v, draw(expr(locals_[v], readable(), 1)), self_read, nc)
 
+        def nj_kinds(loop_depth, self_read, nest_ok):
+            """the join kinds of a narrow join that are legal here"""
+            if not nj_on or state['nj'] >= 2 or self_read or not nest_ok:
+                return []
+            if not (use_acc and (ret == I or 'cast_i2l' in F)) and not [w for w in writable() if locals_[w] == I]:
+                return []               # nothing could read the joined value
+            vs = readable()
+            if not vs[I] and not (vs[J] and 'cast_l2i' in F):
+                return []
+            ks = []
+            if 'if' in F:
+                ks.append('if')
+                if 'else' in F:
+                    ks += ['ifelse', 'ifelse']
+            if ('packed' in F or 'sparse' in F) and loop_depth < 2:
+                ks.append('switch')
+            if ('while' in F or 'dowhile' in F) and state['loops'] < 2 and (loop_depth == 0 or 'nested' in F) and loop_depth < 2:
+                ks.append('loop')
+            return ks
+
+        def narrow_join(jk, loop_depth, can_ret, nc, depth):
+            """-> statements: [narrow assignment,] join statement, one or two reads of the joined local"""
+            state['nj'] += 1
+            if hidden and draw(st.booleans()):
+                nv = hidden[-1]         # the register is used again (what a register allocator does with a dead local)
+            else:
+                nv = len(locals_)
+                locals_.append(I)
+                hidden.append(nv)
+            order = list(draw(st.permutations(['i2b', 'i2s', 'i2c'])))
+            deep_ok = depth + 1 < 3 or 'deep' in F
+
+            def operand():
+                vs = readable()
+                e = draw(expr(I, vs, 1))
+                if e[0] == 'c':
+                    if vs[I]:
+                        e = ['v', I, draw(st.sampled_from(vs[I]))]
+                    else:
+                        e = ['k', I, 'l2i', ['v', J, draw(st.sampled_from(vs[J]))]]
+                return e
+
+            def narrow_set(kind, e=None):
+                return ['set', nv, ['k', I, kind, e if e is not None else operand()]]
+
+            def from_self(kind):
+                e = combine(I, ['v', I, nv], operand())
+                if e[0] != 'b' and bin_ops:
+                    e = ['b', I, 'add' if 'arith' in F else bin_ops[0], ['v', I, nv], operand()]
+                return narrow_set(kind, e)
+
+            def arm(kind, sr=False):
+                """sr: inside a do-while body with dowhile_kill off (every assignment reads its own target)"""
+                blk = [from_self(kind) if sr else narrow_set(kind)]
+                if draw(st.integers(0, 3)) == 0:
+                    blk.insert(0, filler(sr, nc))
+                return with_effect(blk)
+
+            out = []
+            if jk == 'ifelse':
+                els = arm(order[1])
+                if deep_ok and draw(st.integers(0, 2)) == 0:
+                    els = with_effect([['if', cond(readable(), 1, 1, nc), arm(order[1]), arm(order[2])]])
+                out.append(['if', cond(readable(), 1, 2, nc), arm(order[0]), els])
+            elif jk == 'if':
+                out.append(narrow_set(order[0]))
+                out.append(['if', cond(readable(), 1, 2, nc), arm(order[1]), []])
+                if draw(st.integers(0, 2)) == 0:
+                    out.append(['if', cond(readable(), 1, 1, nc), arm(order[2]), []])
+            elif jk == 'switch':
+                kind = draw(st.sampled_from([x for x in ('packed', 'sparse') if x in F]))
+                vs = readable()
+                e = draw(expr(I, vs, 1))
+                if e[0] == 'k' and e[2] in ('i2b', 'i2s', 'i2c'):
+                    e = e[3]
+                if e[0] == 'c':
+                    e = operand()
+                if e[0] == 'k' and e[2] in ('i2b', 'i2s', 'i2c'):
+                    e = e[3]
+                ncase = draw(st.integers(1, 3))
+                if kind == 'packed':
+                    first = draw(st.integers(0, 5))
+                    keys = list(range(first, first + ncase))
+                else:
+                    keys = sorted(draw(st.lists(st.integers(0, 127), min_size=ncase, max_size=ncase, unique=True)))
+                ks = [order[(j + 1) % 3] for j in range(ncase)]
+                if ncase == 1 or draw(st.booleans()):
+                    dflt = arm(order[0])             # every path assigns: `int v; switch (..) {.. default: v = ..}`
+                else:
+                    out.append(narrow_set(order[0]))
+                    dflt = []
+                out.append(['switch', e, [[[key], arm(k_), False] for key, k_ in zip(keys, ks)], dflt, kind])
+            elif jk == 'loop':
+                state['loops'] += 1
+                out.append(narrow_set(order[0]))
+                cv = len(locals_)
+                locals_.append(I)
+                counters.append(cv)
+                lk = draw(st.sampled_from([x for x in ('while', 'dowhile') if x in F]))
+                inner_nc = None if 'const_loop_cond' in F else (nc_base | {cv} | ((nc or set()) - nc_base))
+                extra = cond(readable(), 1, 1, inner_nc) if ('compound' in F and draw(st.integers(0, 3)) == 0) else None
+                body = [from_self(order[1])]
+                if 'if' in F and deep_ok and draw(st.integers(0, 2)) == 0:
+                    sr = lk == 'dowhile' and 'dowhile_kill' not in F
+                    body.append(['if', cond(readable(), 1, 1, inner_nc), arm(order[2], sr), []])
+                out.append(['loop', lk, cv, draw(st.integers(1, 5)), draw(st.sampled_from([1, 1, 2])), extra, with_effect(body)])
+            # reads of the joined value
+            term = ['v', I, nv]
+            for n_use in range(draw(st.integers(1, 2))):
+                opts = []
+                if use_acc and (ret == I or 'cast_i2l' in F):
+                    opts += ['acc', 'acc']
+                wr = [w for w in writable() if locals_[w] == I]
+                if wr:
+                    opts += ['var']
+                if can_ret and (ret == I or 'cast_i2l' in F):
+                    opts.append('ret')
+                u = draw(st.sampled_from(opts))
+                t = term if ret == I or u == 'var' else ['k', J, 'i2l', term]
+                if u == 'acc':
+                    out.append(['set', acc, combine(ret, ['v', ret, acc], t)])
+                elif u == 'var':
+                    w = draw(st.sampled_from(wr))
+                    e = term if draw(st.integers(0, 2)) == 0 else combine(I, term, draw(expr(I, readable(), 1)))
+                    out.append(assign(w, e, False, nc))
+                else:
+                    with_acc = use_acc and ('dead_branch' not in F or draw(st.booleans()))     # as in ret_stmt()
+                    out.append(['ret', combine(ret, ['v', ret, acc], t) if with_acc else t])
+                    break
+            return out
+
         def gen_block(loop_depth, in_loop, allow_ret, size, self_read, nc, in_if=False, in_case=False, depth=0):
             """self_read: inside a do-while body with dowhile_kill off. nc: the never-constant variables that conditions
             must read here (None outside loops or when const_loop_cond is on)"""
@@ -1415,9 +1682,17 @@ def programs(features=FEATURES, max_stmts=6):
                     kinds.append('switch')
                 if in_loop and 'break' in F and (not in_if or 'break_in_if' in F):
                     kinds += ['breakif', 'breakif']
+                njk = nj_kinds(loop_depth, self_read, nest_ok)
+                if njk:
+                    kinds += ['njoin', 'njoin']
                 k = draw(st.sampled_from(kinds))
                 vs = readable()
-                if k == 'set':
+                if k == 'njoin':
+                    can_ret = allow_ret and loop_depth == 0 and not in_loop and (depth == 0 or 'early_return' in F)
+                    blk += narrow_join(draw(st.sampled_from(njk)), loop_depth, can_ret, nc, depth)
+                    if not falls(blk):
+                        break
+                elif k == 'set':
                     v = draw(st.sampled_from(writable()))
                     blk.append(assign(v, draw(expr(locals_[v], vs, draw(st.integers(1, 3)))), self_read, nc))
                 elif k == 'if':
@@ -1505,7 +1780,7 @@ def programs(features=FEATURES, max_stmts=6):
                 # fold every assigned variable into the result so that little of the computation is dead
                 stmts, _e, _c = [], [], []
                 walk(body, stmts, _e, _c)
-                live = sorted({s_[1] for s_, _d in stmts if s_[0] == 'set' and s_[1] not in counters})
+                live = sorted({s_[1] for s_, _d in stmts if s_[0] == 'set' and s_[1] not in counters and s_[1] not in hidden})
                 acc_e = None
                 for v in live:
                     t = ['v', locals_[v], v]
@@ -1524,6 +1799,8 @@ def programs(features=FEATURES, max_stmts=6):
         init = [['set', cv, ['c', I, 0]] for cv in counters]
         body = body[:ninit] + init + body[ninit:]
         if 'narrow_switch' not in F and _has_wide_case_label(body):
+            body = _strip_narrow(body)
+        if 'narrow_join' not in F and narrow_joins({'params': params, 'body': body}):
             body = _strip_narrow(body)
         return {'params': params, 'ret': ret, 'locals': locals_, 'body': body, 'acc': acc,
                 'choices': draw(st.integers(0, (1 << 30))), 'lower': sorted(F & set(LOWER_FEATURES))}
@@ -1712,50 +1989,58 @@ def well_formed(prog):
             return False
         if st_[0] == 'switch' and st_[1][0] == 'c':
             return False
-    # definite assignment: conservative linear rule - a variable is assigned if a top-level `set` precedes
-    assigned = set(range(np_))
+    # definite assignment (JLS 16, under-approximated: nothing assigned in a loop body counts after the loop)
+    every = frozenset(range(len(prog['locals'])))
 
-    def uses_ok_expr(e):
-        es = []
-        _walk_exprs(e, es)
-        return all(x[2] in assigned for x in es if x[0] == 'v')
+    class NotAssigned(Exception):
+        pass
 
-    def uses_ok_cond(c):
-        es, cs = [], []
-        _walk_cond(c, es, cs)
-        return all(x[2] in assigned for x in es if x[0] == 'v')
+    def need_expr(e, a):
+        if not _vars_of(e) <= a:
+            raise NotAssigned()
 
-    def uses_ok_block(blk, top):
+    def need_cond(c, a):
+        if not _cond_vars(c) <= a:
+            raise NotAssigned()
+
+    def da(blk, a):
+        """-> the variables assigned when the block completes normally (all of them when it cannot)"""
         for s in blk:
             k = s[0]
             if k == 'set':
-                if not uses_ok_expr(s[2]):
-                    return False
-                if top:
-                    assigned.add(s[1])
-                elif s[1] not in assigned:
-                    return False            # keep it simple: nested first assignments are not generated
+                need_expr(s[2], a)
+                a = a | {s[1]}
             elif k == 'ret':
-                if not uses_ok_expr(s[1]):
-                    return False
+                need_expr(s[1], a)
+                a = every
             elif k == 'if':
-                if not uses_ok_cond(s[1]) or not uses_ok_block(s[2], False) or not uses_ok_block(s[3], False):
-                    return False
+                need_cond(s[1], a)
+                a = da(s[2], a) & da(s[3], a)
             elif k == 'loop':
-                if s[2] not in assigned:
-                    return False
-                if (s[5] is not None and not uses_ok_cond(s[5])) or not uses_ok_block(s[6], False):
-                    return False
+                if s[2] not in a:
+                    raise NotAssigned()        # the counter gets its first value up front
+                if s[5] is not None:
+                    need_cond(s[5], a)
+                da(s[6], a)
             elif k == 'breakif':
-                if not uses_ok_cond(s[1]):
-                    return False
+                need_cond(s[1], a)
             elif k == 'switch':
-                if not uses_ok_expr(s[1]) or not uses_ok_block(s[3], False):
-                    return False
-                if not all(uses_ok_block(c[1], False) for c in s[2]):
-                    return False
-        return True
-    return uses_ok_block(body, True)
+                need_expr(s[1], a)
+                out, prev = every, None
+                for (_keys, cb, ft) in s[2]:
+                    o = da(cb, a if prev is None else a & prev)
+                    if ft:
+                        prev = o
+                    else:
+                        prev = None
+                        out = out & o
+                a = out & da(s[3], a if prev is None else a & prev)
+        return a
+    try:
+        da(body, frozenset(range(np_)))
+    except NotAssigned:
+        return False
+    return True
 
 
 def shrink_candidates(prog):
